@@ -3,7 +3,7 @@ from ..rt import check
 
 STREAMS = ["termination"]
 RULE = ("gated scenarios: still-running coroutine payloads (sleeping, spinning on zero-length sleeps, adopted from other "
-        "payloads, with synchronous cleanup 0..50 ms and trio shielded cleanup 0..300 ms) and blocked thread payloads x "
+        "payloads, parked on an awaitable nothing else refers to - with the cyclic garbage collector run on purpose before the trigger -, with synchronous cleanup 0..50 ms and trio shielded cleanup 0..300 ms) and blocked thread payloads x "
         "trigger (failure in each flavour, SIGINT, shutdown() from outside, shutdown() from a thread payload) x trigger "
         "time; per-payload event logs with sequence numbers and monotonic time stamps compared with the instant accept() "
         "ended (same process, same clock; the worker lingers 250 ms afterwards to see late steps); events replayed on the "
